@@ -84,6 +84,20 @@ Proof. exact (conj (proj1 Gex_continuation) (proj1 (proj2 Gex_continuation))). Q
 Theorem C15_source_parent_test_is_le : parent_around_strict = false.
 Proof. reflexivity. Qed.
 
+(* control-flow facts re-extracted from the source on every run
+   (harness/consts/p2_markov_session.py); the first two are parameters of the
+   model, the theorems below are stated WITH the extracted values and proved for
+   the values the code has: *)
+(* the session loop pops first and tests the quit flag afterwards *)
+Theorem C15_source_quit_check_after_pop : session_quit_check_after_pop = true.
+Proof. reflexivity. Qed.
+(* run(load_session=True) calls restore_omen before the loop *)
+Theorem C15_source_omen_restored_before_loop : session_omen_restored_before_loop = true.
+Proof. reflexivity. Qed.
+(* PcfgQueue.next stores the popped item's probability in max_probability *)
+Theorem C15_source_next_records_popped_probability : queue_next_records_popped_probability = true.
+Proof. reflexivity. Qed.
+
 (* C15_then_rest: the interrupted session printed everything before the level
    and the first j+1 strings of the level and saved y's probability; the
    resumed session prints exactly the remaining strings of the level and then
@@ -107,12 +121,12 @@ Theorem C15_then_rest :
   length (skipn (S j) (level_strings (sg_omen g) T)) < calls ->
   length (filter (below (iprob y)) (all_preterminals (sg_rs g))) <= n ->
   exists f r,
-    interrupted upper_c omen_optimizer_max_length omen_first_object_extra pop g (length U1) (S j) c =
+    interrupted upper_c omen_optimizer_max_length omen_first_object_extra session_quit_check_after_pop pop g (length U1) (S j) c =
       Saved (stream upper_c g U1 ++ firstn (S j) (level_strings (sg_omen g) T)) f /\
     sf_max_prob f = iprob y /\
     resumed_session omen_optimizer_max_length omen_first_object_extra parent_around_strict cleared
                     pop' g f calls c2 n = Some r /\
-    resumed_out upper_c g r =
+    resumed_out upper_c session_omen_restored_before_loop g r =
       skipn (S j) (level_strings (sg_omen g) T) ++ stream upper_c g (resumed_pops r) /\
     Permutation (resumed_pops r)
                 (filter (fun z => peq (iprob z) (iprob y)) (U1 ++ [x]) ++ y :: U2) /\
@@ -149,17 +163,19 @@ Theorem C15_tied_level_repeats :
   length (filter (below (iprob y)) (all_preterminals (sg_rs g))) <= n ->
   let L := level_strings (sg_omen g) T in
   exists f r,
-    interrupted upper_c omen_optimizer_max_length omen_first_object_extra pop g (length U1) (S j) c =
+    interrupted upper_c omen_optimizer_max_length omen_first_object_extra session_quit_check_after_pop pop g (length U1) (S j) c =
       Saved (stream upper_c g U1 ++ firstn (S j) L) f /\
     resumed_session omen_optimizer_max_length omen_first_object_extra parent_around_strict cleared
                     pop' g f calls c2 n = Some r /\
     (In x (resumed_pops r) <-> peq (iprob x) (iprob y) = true) /\
     (peq (iprob x) (iprob y) = true ->
        exists B1 B2, resumed_pops r = B1 ++ x :: B2 /\ ~ In x B1 /\ ~ In x B2 /\
-         resumed_out upper_c g r = skipn (S j) L ++ stream upper_c g B1 ++ L ++ stream upper_c g B2) /\
+         resumed_out upper_c session_omen_restored_before_loop g r =
+           skipn (S j) L ++ stream upper_c g B1 ++ L ++ stream upper_c g B2) /\
     (peq (iprob x) (iprob y) = false -> ~ In x (resumed_pops r)) /\
     (forall s, (forall z, In z (all_preterminals (sg_rs g)) -> z <> x -> ~ In s (pt_out upper_c g (ipt z))) ->
-       count_occ str_eq_dec ((stream upper_c g U1 ++ firstn (S j) L) ++ resumed_out upper_c g r) s =
+       count_occ str_eq_dec ((stream upper_c g U1 ++ firstn (S j) L) ++
+                             resumed_out upper_c session_omen_restored_before_loop g r) s =
        count_occ str_eq_dec L s + (if peq (iprob x) (iprob y) then count_occ str_eq_dec L s else 0)).
 Proof.
   exact (fun A up g pop pop' U1 x y U2 T j c c2 starts cleared calls n Hwf Hp Hp' HU HT Hj Hc Hc2 Hs =>
@@ -178,11 +194,55 @@ Theorem C15_last_level_not_saved :
   j < length (level_strings (sg_omen g) T) ->
   cache_ok (cp_fast (sg_omen g)) (og_max_level (sg_omen g)) c ->
   mc_starts (ip_at (sg_omen g)) (ln_at (sg_omen g)) (og_max_level (sg_omen g)) omen_first_object_extra = Some starts ->
-  interrupted upper_c omen_optimizer_max_length omen_first_object_extra pop g (length U1) (S j) c =
+  interrupted upper_c omen_optimizer_max_length omen_first_object_extra session_quit_check_after_pop pop g (length U1) (S j) c =
     NotSaved (stream upper_c g U1 ++ firstn (S j) (level_strings (sg_omen g) T)).
 Proof.
   exact (fun A up => last_level_not_saved up omen_optimizer_max_length omen_first_object_extra C15_source_first_object_range).
 Qed.
+
+(* Why the pop comes first (the mechanism named in the property: "the following
+   pop supplies the saved max probability so the interrupted level is not
+   regenerated"): with the quit flag tested at the TOP of the loop
+   (check_after_pop = false) the saved probability is the level's own, and the
+   resumed session ALWAYS pops the level's pre-terminal again and prints the
+   whole level once more after its remainder, tied with anything or not. *)
+Theorem C15_refuted_check_before_pop :
+  forall (A : palg) (upper_c : N -> str) (g : sgram A)
+         (pop pop' : queue A -> option (item A * queue A))
+         (U1 : list (item A)) (x y : item A) (U2 : list (item A)) (T : Z) (j : nat)
+         (c c2 : cache) (starts : nat * nat) (cleared : bool) (calls n : nat),
+  wf (sg_rs g) -> pop_ok_okb pop -> pop_ok_okb pop' ->
+  pops pop g (total (sg_rs g)) = U1 ++ x :: y :: U2 ->
+  markov_level g (ipt x) = Some T ->
+  j < length (level_strings (sg_omen g) T) ->
+  cache_ok (cp_fast (sg_omen g)) (og_max_level (sg_omen g)) c ->
+  cache_ok (cp_fast (sg_omen g)) (og_max_level (sg_omen g)) c2 ->
+  mc_starts (ip_at (sg_omen g)) (ln_at (sg_omen g)) (og_max_level (sg_omen g)) omen_first_object_extra = Some starts ->
+  length (skipn (S j) (level_strings (sg_omen g) T)) < calls ->
+  length (filter (below (iprob x)) (all_preterminals (sg_rs g))) <= n ->
+  let L := level_strings (sg_omen g) T in
+  exists f r,
+    interrupted upper_c omen_optimizer_max_length omen_first_object_extra false pop g (length U1) (S j) c =
+      Saved (stream upper_c g U1 ++ firstn (S j) L) f /\
+    sf_max_prob f = iprob x /\
+    resumed_session omen_optimizer_max_length omen_first_object_extra parent_around_strict cleared
+                    pop' g f calls c2 n = Some r /\
+    exists B1 B2, resumed_pops r = B1 ++ x :: B2 /\
+      resumed_out upper_c true g r = skipn (S j) L ++ stream upper_c g B1 ++ L ++ stream upper_c g B2.
+Proof.
+  exact (fun A up g pop pop' U1 x y U2 T j c c2 starts cleared calls n Hwf Hp Hp' HU HT Hj Hc Hc2 Hs =>
+           check_before_pop_regenerates up omen_optimizer_max_length omen_first_object_extra C15_source_first_object_range
+                     g Hwf pop pop' Hp Hp' U1 x y U2 HU T HT j Hj c c2 Hc Hc2 starts Hs cleared calls n).
+Qed.
+
+(* ... and concretely, on the NOT tied instance: the level's pre-terminal (0,0)
+   comes first in the resumed run and its 5 strings are printed again *)
+Theorem C15_refuted_check_before_pop_witness :
+  ex_sessions false 0x1p-1%float omen_first_object_extra =
+  Some ([[49%N]; [50%N]] ++ firstn 2 ex_L,
+        skipn 2 ex_L ++ ex_L ++ skipn (2 + length ex_L) (session_out ex_up pop_first_max (ex_g 0x1p-1%float)),
+        [[(0, 0)]; [(1, 1)]; [(0, 1)]; [(2, 0)]]).
+Proof. exact (ex_check_before_pop_regenerates omen_first_object_extra C15_source_first_object_range). Qed.
 
 (* "later quit/resume cycles do not replay that remainder again", inside the
    combined model: the resumed session above ran the restored level to its end
@@ -220,14 +280,14 @@ Proof. exact (conj ex_not_tied ex_tied). Qed.
    the tied instance; after the 3 remaining strings the level's pre-terminal
    (0,0) is popped again and all 5 strings of the level are printed once more *)
 Theorem C15_tied_level_witness :
-  ex_sessions 1%float omen_first_object_extra =
+  ex_sessions session_quit_check_after_pop 1%float omen_first_object_extra =
   Some ([[49%N]; [50%N]] ++ firstn 2 ex_L,
         skipn 2 ex_L ++ ex_L ++ skipn (2 + length ex_L) (session_out ex_up pop_first_max (ex_g 1%float)),
         [[(0, 0)]; [(2, 0)]; [(1, 1)]; [(0, 1)]]).
 Proof. exact (ex_tied_level_regenerated omen_first_object_extra C15_source_first_object_range). Qed.
 
 Theorem C15_not_tied_witness :
-  ex_sessions 0x1p-1%float omen_first_object_extra =
+  ex_sessions session_quit_check_after_pop 0x1p-1%float omen_first_object_extra =
   Some ([[49%N]; [50%N]] ++ firstn 2 ex_L,
         skipn 2 ex_L ++ skipn (2 + length ex_L) (session_out ex_up pop_first_max (ex_g 0x1p-1%float)),
         [[(1, 1)]; [(0, 1)]; [(2, 0)]]).
@@ -262,3 +322,4 @@ Print Assumptions C15_follow_pop_ok.
 Print Assumptions C15_session_hypotheses_satisfiable.
 Print Assumptions C15_tied_level_witness.
 Print Assumptions C15_later_resume_no_replay.
+Print Assumptions C15_refuted_check_before_pop.
